@@ -38,6 +38,8 @@ type behaviour struct {
 	// OnGenErr / OnBuildErr decide what a non-generated / non-compiling program means for this property.
 	OnGenErr   func(sc *SCase, msg string)
 	OnBuildErr func(sc *SCase, msg string)
+	// OnNoType is called when the compiled program does not declare the target type.
+	OnNoType func(sc *SCase, p *batch.Program)
 	// OnProgram is called once per compiled program.
 	OnProgram func(sc *SCase, p *batch.Program)
 	// Extra is called for every observation after the standard comparison.
@@ -127,6 +129,9 @@ func runBehaviour(ctx *Ctx, b behaviour) {
 		}
 		if !found {
 			ctx.Run.Count("programs_without_root_type", 1)
+			if b.OnNoType != nil {
+				b.OnNoType(sc, p)
+			}
 			continue
 		}
 		m, err := refmodel.New(filesOf(p.Case), sc.MainPath())
